@@ -389,7 +389,7 @@ func c32Exec(t *testing.T, sc *gen.Scenario, trace bool) *harness.Outcome {
 					// finishes first; C06 admits both). "The same results as ListUsers" can then only mean "a
 					// result ListUsers gives": the native call is repeated under other schedules, and only an
 					// AuthZEN answer the native API never gives is a disagreement.
-					matched := false
+					matched := ListUsersEquivalent(got, nat)
 					for k := 0; k < 6 && !matched; k++ {
 						ctx, cancel := reqCtx(i, fmt.Sprintf(".native%d", k+2), 10*time.Second)
 						again, errR := e.SrvListUsers(ctx, s, rq)
